@@ -140,6 +140,9 @@ def run(ck):
             bad.append(N)
     ck.ob("C06-O2", sitestr(rt), not bad, "with N in {-1,0,2,5} rotation is performed" if not bad else "rotation is disabled for N in %s" % bad, key="rotate|disabled-for-other-n")
     ordering(ck, S, first_end)
+    # the (date, index) key identifies rotation order only if indices are handed out in increasing order: index = max + 1
+    from rules.c09 import next_index
+    next_index(ck, S, "C06-O5")
     name_pattern(ck, S, S.m["findRotatedFiles"], "C06-O6", date_is_class=True)
 
 
